@@ -276,3 +276,41 @@ impl<T> End<T> {
         }
     }
 }
+
+/// One timer registration per (object, deadline), always waking the most recent waker.
+/// Without this every spurious poll of a waiting future would add one more heap entry.
+#[derive(Default)]
+pub struct TimerSlot {
+    slot: Arc<Mutex<Option<Waker>>>,
+    armed_for: Option<u64>,
+}
+
+struct SlotWaker(Arc<Mutex<Option<Waker>>>);
+impl Wake for SlotWaker {
+    fn wake(self: Arc<Self>) {
+        let w = self.0.lock().unwrap().take();
+        if let Some(w) = w {
+            w.wake();
+        }
+    }
+}
+
+impl TimerSlot {
+    pub fn new() -> Self {
+        Self::default()
+    }
+    /// Arrange for the current task to be woken at virtual time `at`.
+    pub fn arm(&mut self, at: u64, cx: &mut Context<'_>) {
+        *self.slot.lock().unwrap() = Some(cx.waker().clone());
+        if self.armed_for != Some(at) {
+            self.armed_for = Some(at);
+            register_timer(at, Waker::from(Arc::new(SlotWaker(self.slot.clone()))));
+        }
+    }
+}
+
+impl std::fmt::Debug for TimerSlot {
+    fn fmt(&self, f: &mut std::fmt::Formatter<'_>) -> std::fmt::Result {
+        write!(f, "TimerSlot({:?})", self.armed_for)
+    }
+}
